@@ -394,7 +394,7 @@ def _work(args):
     return C.obs
 
 
-def run_suite(run_, names, tier, procs=16):
+def run_suite(run_, names, tier, procs=16, keep=None):
     ctxm = mp.get_context("fork")
     M = load()
     with shimmed(M):
@@ -403,6 +403,8 @@ def run_suite(run_, names, tier, procs=16):
         results = pool.map(_work, tasks, chunksize=1)
     for obs in results:
         for oid, st, be, secs, detail, wit, text in obs:
+            if keep is not None and not keep(oid):
+                continue
             if st == "bounded-ok":
                 run_.ob(oid, core.DISCHARGED, be, secs, detail=detail, klass="bounded", text=text)
             else:
@@ -423,3 +425,6 @@ def run(run_, tier):
     names = list(factories())
     run_suite(run_, names, tier)
     run_.notes.append(f"factories: {names}")
+    # Engine D: the composite classes (and ring-level leaf classes) for ALL dimensions, operands = contract stubs
+    from . import c10_generic
+    c10_generic.run_generic(run_, tier)
